@@ -57,6 +57,18 @@ def gen_asset(rng, name, years, ne, nh, mixed):
     t_last = None
     first = True
     for y in years:
+        if mixed and not first and rng.chance(50):
+            # local years that interleave in time: a purchase dated 1 January y 01:00 (+14:00) happens BEFORE a purchase dated
+            # 31 December y-1 21:00 (-12:00); both belong on the sheet of their own local year
+            ta = hist.day_us(y, 1, 1) + 3600_000_000 - 50400 * 1_000_000
+            tb = hist.day_us(y, 1, 1) - 3 * 3600_000_000 + 43200 * 1_000_000
+            if t_last is not None and t_last < ta:
+                for t, off in ((ta, 50400), (tb, -43200)):
+                    acct = (rng.below(ne), rng.below(nh))
+                    amt = rng.choice(AMOUNTS)
+                    ins.append({"ts": [t, off], "exch": acct[0], "holder": acct[1], "type": "BUY", "spot": rng.choice(PRICES), "crypto_in": amt})
+                    bal[acct] = bal.get(acct, 0) + amt
+                t_last = tb
         kind = rng.choice(["buy", "sell", "sell", "move0", "move0", "movefee", "mixed", "mixed", "income"])
         if first:
             kind = rng.choice(["buy", "buy", "mixed", "income"])
@@ -157,7 +169,7 @@ def gen_case(rng, k=0):
     names = list(l5.ASSET_NAMES)
     rng.shuffle(names)
     pool = sorted(rng.shuffle(list(range(2016, 2025)))[:rng.range(2, 6)])      # sparse set of years
-    mixed = rng.chance(15)
+    mixed = rng.chance(25)
     assets = []
     for j in range(n):
         ys = [y for y in pool if rng.chance(60)] or [rng.choice(pool)]
